@@ -733,6 +733,10 @@ def gen_user(tier, seed):
     for mpm in ("tuple", "conditional", "monomer", "monomers"):
         descs.append((["class", "TimeReversibleDinucleotide", {"predicates": ["kappa"], "mprob_model": mpm}], ["kappa"], mpm, "rev"))
         descs.append((["class", "TimeReversibleDinucleotide", {"predicates": ["kappa", "A/C"], "mprob_model": mpm}], ["kappa", "A/C"], mpm, "rev"))
+    # codon models: the state space is a proper subset of all words, so word probabilities built from monomers need
+    # their own normalisation (seeded change C05-s2 lived here)
+    for mpm in ("tuple", "conditional", "monomer", "monomers"):
+        descs.append((["class", "TimeReversibleCodon", {"predicates": ["kappa", "omega"], "mprob_model": mpm}], ["kappa", "omega"], mpm, "rev"))
     descs.append((["class", "NonReversibleDinucleotide", {"predicates": ["A>G", "C>T"]}], ["A>G", "C>T"], "none", "nonrev"))
     descs.append((["class", "TimeReversibleNucleotide", {"predicates": ["kappa", "indel"], "model_gaps": True}], None, "nospec", "rev"))
     descs.append((["class", "TimeReversibleDinucleotide", {"predicates": ["kappa", "indel"], "model_gaps": True, "mprob_model": "tuple"}], None, "nospec", "rev"))
